@@ -45,6 +45,7 @@ func runC04(p *load.Program, r *oblig.Report) {
 	c04Primitives(p, r)
 	c04EmptyArray(p, r)
 	c04VersionedRequests(p, r)
+	c04PageAccess(p, r)
 	// the v2 record batch inside a Produce body: header layout and back-patched fields (C05.R1)
 	shareRules(r, "C04", "C04.R10 the record batch of a produce request is canonical", func(sub *oblig.Report) { c05WriterV2(p, sub) })
 	// a response is consumed as exactly one frame also when it carries an error code (C11.R1)
